@@ -89,9 +89,10 @@ THREE = {
 }
 
 
-@proof("C08", "arc_length_3point/radius-times-angle", cases=list(THREE), functions=[FN + "arc_length_3point"], samples=25, timeout=300, thorough_only=True,
-       note="start, given and end point at angles 0 < beta < alpha < 2pi on a circle in general position: length = R*alpha "
-            "(the arc through the given point)")
+@proof("C08", "bounded/arc_length_3point/radius-times-angle", cases=list(THREE), functions=[FN + "arc_length_3point"], samples=40, level="B",
+       note="bounded stand-in only (the symbolic proof - lemmas on the code's arccos argument and side test, then arccos-of-cos "
+            "axioms - closes single lemmas in 10-50 s but the whole obligation did not fit the solver budgets): start, given and "
+            "end point at angles 0 < beta < alpha < 2pi on a circle in general position: length = R*alpha")
 def arc_length(ctx):
     C, r0, rp, axis, radius = frame(ctx)
     (lo, hi), bmode = THREE[ctx.case]
@@ -122,9 +123,9 @@ def arc_length(ctx):
     ctx.prove("length-is-radius-times-included-angle", ctx.eq(length, radius * alpha, tol=1e-6))
 
 
-@proof("C08", "Angle-Origin-edge/length-is-radius-times-angle", cases=["angle", "origin"],
+@proof("C08", "bounded/Angle-Origin-edge/length-is-radius-times-angle", cases=["angle", "origin"],
        functions=[BASE + "ArcEdgeBase.length", BASE + "ArcEdgeBase.is_valid", ANG + "AngleEdge.third_point", ORG + "OriginEdge.third_point"],
-       samples=25, timeout=300, thorough_only=True, note="0 < theta < pi")
+       samples=40, level="B", note="bounded stand-in only; 0 < theta < pi")
 def edge_length(ctx):
     C, r0, rp, axis, radius = frame(ctx)
     h = ctx.real("half", lo=0.05, hi=math.pi / 2 - 0.05)
